@@ -425,12 +425,13 @@ def sym_kind(c, case, kind, sn, names, srcnames, res):
     # solutions: ac solution against the s-domain solution at j w, both of degree <= dx: cross degree <= 2 dx
     bound = max(dA + 3, 2 * dx)
     # sample points at which every entry and every solution component is finite (no pole of the system at the point)
-    good = []
-    for p in pts:
+    good, gidx = [], []
+    for pi_, p in enumerate(pts):
         try:
             vals = [x[i].subs(kind, p) for i in range(x.shape[0])] + [A[i, k].subs(kind, p) for i in range(A.shape[0]) for k in range(A.shape[1])]
             if all(v.is_finite for v in vals):
                 good.append(p)
+                gidx.append(pi_)
         except Exception:
             pass
         if len(good) > bound:
@@ -531,7 +532,8 @@ def sym_kind(c, case, kind, sn, names, srcnames, res):
                 out['transfer'] = {'error': type(e).__name__ + ': ' + str(e)[:150]}
     for i, p in enumerate(pts):
         o = pick(out, i)
-        o['sympoint'] = {'sym': name, 'i': i, 'n': npts, 'bound': bound, 'deg_entries': dA, 'deg_solution': dx,
+        # 'i' indexes case['omega_points'][name] (points at which the system has a pole are skipped), 'k' counts the points used
+        o['sympoint'] = {'sym': name, 'i': gidx[i], 'k': i, 'n': npts, 'bound': bound, 'deg_entries': dA, 'deg_solution': dx,
                          'points': [q(x_) for x_ in pts]}
         res['ac'][q(p)] = o
 
